@@ -10,10 +10,10 @@ verify)
   git -C /repo worktree add -q --detach "$wt" HEAD || exit 2
   demodir=$(python3 -c "import json,sys;print(json.load(open('$dir/meta.json'))['demo_dir'])")
   cp "$dir"/demo_test.go "$wt/$demodir/zz_seed_demo_test.go"
-  echo "== without patch (expect PASS)"; (cd "$wt/$demodir" && go test -count=1 -run . . 2>&1 | tail -3)
+  echo "== without patch (expect PASS)"; (cd "$wt/$demodir" && go test -count=1 -run 'TestSeed|TestC07Critical' . 2>&1 | tail -3)
   git -C "$wt" apply "$dir/patch.diff" || { echo "patch does not apply"; }
   echo "== with patch: build"; (cd "$wt" && go build ./... 2>&1 | tail -3)
-  echo "== with patch: demo (expect FAIL)"; (cd "$wt/$demodir" && go test -count=1 -run . . 2>&1 | tail -5)
+  echo "== with patch: demo (expect FAIL)"; (cd "$wt/$demodir" && go test -count=1 -run 'TestSeed|TestC07Critical' . 2>&1 | grep -E "^(--- FAIL|FAIL|ok)" | head -6)
   rm "$wt/$demodir/zz_seed_demo_test.go"
   echo "== with patch: existing tests (expect ok, network tests aside)"; (cd "$wt" && go test -count=1 ./... 2>&1 | grep -v "no test files" | tail -25)
   git -C /repo worktree remove --force "$wt"
